@@ -840,6 +840,12 @@ class Builder:
         elif isinstance(st, ast.AugAssign):
             cur = self.t(st.target)
             v = self.t(ast.BinOp(left=st.target, op=st.op, right=st.value))
+            if self.track_effects:
+                # `x -= y` updates the object x names (a tensor shared with the caller stays shared and changes): not `x = x - y`
+                cur_ = cur if isinstance(cur, Rat) else app("const", str(cur))
+                rhs_ = self.t(st.value)
+                rhs_ = rhs_ if isinstance(rhs_, Rat) else app("const", str(rhs_))
+                self.stores["!effects"] = app("seq", self.stores.get("!effects", sym("!effects")), app("inplace_op", type(st.op).__name__, cur_, rhs_))
             self.assign(st.target, v)
         elif isinstance(st, ast.Expr):
             if isinstance(st.value, ast.Call):
